@@ -83,6 +83,7 @@ VpMHBlk *vp_c18_mh_empty;
 // storage has never seen.  Pair index q = key - 'A' (0..3), owner(q) = q < 2 ? 'o' : 'c'.
 #define NQ 4
 #define KEY_X 'X'
+#define KEY_NONE 'E'   /* postponed-table code of the EMPTY sender key id (message without e2ee metadata); never a key of the universe */
 static inline unsigned ownerOf(unsigned q) { return q < 2 ? 'o' : 'c'; }
 enum { LvUndecided = 1, LvAutoDistrusted = 2, LvManDistrusted = 4, LvAutoTrusted = 8, LvManTrusted = 16, LvAuthenticated = 32 };
 
@@ -91,7 +92,9 @@ enum { LvUndecided = 1, LvAutoDistrusted = 2, LvManDistrusted = 4, LvAutoTrusted
 #define PCAP 4
 #endif
 #define MAX_OWNERS 2   /* key owners per trust message */
+#ifndef MAX_KEYS
 #define MAX_KEYS 1     /* trusted / distrusted keys per owner */
+#endif
 struct PEnt { bool used; unsigned char s; unsigned char q; bool t; };   // postponed decision: sender key id, pair, trust
 struct TrustState {
     unsigned char L[NQ];
@@ -172,6 +175,7 @@ public:
         // fixed trip counts (MAX_OWNERS x MAX_KEYS), every element access at a literal index guarded by the symbolic length;
         // unused list slots hold valid dummy elements (c18_env.c)
         unsigned s = vp_c18_key_code(&senderKeyId);
+        if (s == 0) s = KEY_NONE;   // empty sender key id (no e2ee metadata): stored under its own code; no key of the universe has it
         unsigned n = vp_c18_list_len(&keyOwners);
         vp_c18_limit(n <= MAX_OWNERS);
         for (unsigned i = 0; i < MAX_OWNERS; i++) {
